@@ -356,6 +356,85 @@ fn empty_encodings<D: KvDatabase>(name: &str, open: &dyn Fn() -> D) -> u64 {
     checks
 }
 
+/// directed: operations on members / keys that were NEVER committed, several to one slot inside one DIRECT batch (no buffer):
+/// the later operation wins whatever the committed store says about the slot
+fn fresh_slot_twice_in_one_direct_batch<D: KvDatabase>(name: &str, open: &dyn Fn() -> D) -> u64 {
+    let mut checks = 0;
+    let db = open();
+    let k = vec![7u8, 7, 7];
+    let mut b = db.write_batch();
+    b.insert_member::<SetBytes>(&k, &vec![1u8]);
+    b.delete_member::<SetBytes>(&k, &vec![1u8]);          // fresh member: inserted and deleted in one batch
+    b.insert_member::<SetBytes>(&k, &vec![2u8]);
+    b.put::<WidePre, u64>(&k, &1);
+    b.delete::<WidePre, u64>(&k);                           // fresh key: put and deleted in one batch
+    b.put::<WideSuf, u64>(&k, &1);
+    b.put::<WideSuf, u64>(&k, &2);
+    b.commit();
+    let mut b2 = db.write_batch();
+    b2.insert_member::<SetBytes>(&k, &vec![3u8]);           // pending in ANOTHER, still uncommitted batch ...
+    let mut b3 = db.write_batch();
+    b3.delete_member::<SetBytes>(&k, &vec![3u8]);           // ... deleted by a later batch
+    b2.commit();
+    b3.commit();
+    let got: BTreeSet<Vec<u8>> = db.scan_members::<SetBytes>(&k).collect(); checks += 1;
+    if got != BTreeSet::from([vec![2u8]]) { found(&format!("{name}: members after insert+delete of never-committed members through the direct batch path"), "batch{insert [1]; delete [1]; insert [2]} commit; batch2{insert [3]} batch3{delete [3]} (both filled before either commits); commit 2; commit 3; scan", &format!("{got:?}"), "{[2]}"); }
+    let g = db.get_wide_column::<WidePre, u64>(&k); checks += 1;
+    if g.is_some() { found(&format!("{name}: a key put and deleted in one direct batch is present"), "batch{put k=1; delete k} commit; get", &format!("{g:?}"), "None"); }
+    let g = db.get_wide_column::<WideSuf, u64>(&k); checks += 1;
+    if g != Some(2) { found(&format!("{name}: two puts to one slot in one direct batch"), "batch{put k=1; put k=2} commit; get", &format!("{g:?}"), "Some(2)"); }
+    checks
+}
+
+/// directed: small signed keys, members and values on both sides of zero (one-byte and zigzag codecs)
+#[derive(Debug, Clone, Copy, PartialEq, Eq, PartialOrd, Ord, Hash, Identifiable)]
+#[stable_type_id_crate(qbice_stable_type_id)]
+struct WideI8;
+impl WideColumn for WideI8 {
+    type Discriminant = i8;
+    type Key = i8;
+    fn discriminant_encoding() -> DiscriminantEncoding { DiscriminantEncoding::Prefixed }
+}
+impl WideColumnValue<WideI8> for i16 { fn discriminant() -> i8 { -1 } }
+impl WideColumnValue<WideI8> for i8 { fn discriminant() -> i8 { 1 } }
+#[derive(Debug, Clone, Copy, PartialEq, Eq, PartialOrd, Ord, Hash, Identifiable)]
+#[stable_type_id_crate(qbice_stable_type_id)]
+struct SetI8;
+impl KeyOfSetColumn for SetI8 { type Key = i8; type Element = i16; }
+fn small_signed<D: KvDatabase>(name: &str, open: &dyn Fn() -> D) -> u64 {
+    let mut checks = 0;
+    let keys: Vec<i8> = vec![i8::MIN, -127, -100, -64, -63, -2, -1, 0, 1, 2, 63, 64, 100, 127];
+    let check = |db: &D, when: &str, checks: &mut u64| {
+        for k in &keys {
+            let g = db.get_wide_column::<WideI8, i16>(k); *checks += 1;
+            if g != Some(*k as i16 * 200) { found(&format!("{name}: i8 key {k} reads back another key's value {when}"), &format!("put::<WideI8, i16>(k, 200*k) for k in {keys:?}; get({k})"), &format!("{g:?}"), &format!("Some({})", *k as i16 * 200)); }
+            let g = db.get_wide_column::<WideI8, i8>(k); *checks += 1;
+            if g != Some(k.wrapping_neg()) { found(&format!("{name}: i8 value under key {k} reads back differently {when}"), &format!("put::<WideI8, i8>(k, -k); get({k})"), &format!("{g:?}"), &format!("Some({})", k.wrapping_neg())); }
+            let got: BTreeSet<i16> = db.scan_members::<SetI8>(k).collect(); *checks += 1;
+            let want: BTreeSet<i16> = [*k as i16, -(*k as i16), *k as i16 * 129].into_iter().collect();
+            if got != want { found(&format!("{name}: members of i8 key {k} {when}"), &format!("insert_member::<SetI8>({k}, {{k, -k, 129k}})"), &format!("{got:?}"), &format!("{want:?}")); }
+        }
+    };
+    {
+        let db = open();
+        let mut b = db.write_batch();
+        let mut buf = db.serialization_buffer();
+        for k in &keys {
+            b.put::<WideI8, i16>(k, &(*k as i16 * 200));
+            buf.put::<WideI8, i8>(k, &k.wrapping_neg());
+            b.insert_member::<SetI8>(k, &(*k as i16));
+            buf.insert_member::<SetI8>(k, &(-(*k as i16)));
+            b.insert_member::<SetI8>(k, &(*k as i16 * 129));
+        }
+        b.consume_serialization_buffer(buf);
+        b.commit();
+        check(&db, "in the same process", &mut checks);
+    }
+    let db = open();
+    check(&db, "after reopen", &mut checks);
+    checks
+}
+
 /// directed: batches that consist ONLY of operations whose encoded key and value are empty byte strings (direct and through a
 /// serialization buffer), each in a batch of its own: put, overwrite-visible-after-reopen, delete
 fn all_empty_batch<D: KvDatabase>(name: &str, open: &dyn Fn() -> D) -> u64 {
@@ -467,6 +546,10 @@ fn main() {
         n += empty_encodings("rocksdb", &|| RocksDB::open(&p1d, Plugin::default()).unwrap());
         let p1e = base.join("rocks_all_empty");
         n += all_empty_batch("rocksdb", &|| RocksDB::open(&p1e, Plugin::default()).unwrap());
+        let p1h = base.join("rocks_fresh_slot");
+        n += fresh_slot_twice_in_one_direct_batch("rocksdb", &|| RocksDB::open(&p1h, Plugin::default()).unwrap());
+        let p1g = base.join("rocks_signed");
+        n += small_signed("rocksdb", &|| RocksDB::open(&p1g, Plugin::default()).unwrap());
         let p1f = base.join("rocks_large");
         n += large_payloads("rocksdb", &|| RocksDB::open(&p1f, Plugin::default()).unwrap());
     }
@@ -481,6 +564,10 @@ fn main() {
         n += empty_encodings("fjall", &|| Fjall::open(&p2d, Plugin::default()).unwrap());
         let p2e = base.join("fjall_all_empty");
         n += all_empty_batch("fjall", &|| Fjall::open(&p2e, Plugin::default()).unwrap());
+        let p2h = base.join("fjall_fresh_slot");
+        n += fresh_slot_twice_in_one_direct_batch("fjall", &|| Fjall::open(&p2h, Plugin::default()).unwrap());
+        let p2g = base.join("fjall_signed");
+        n += small_signed("fjall", &|| Fjall::open(&p2g, Plugin::default()).unwrap());
         let p2f = base.join("fjall_large");
         n += large_payloads("fjall", &|| Fjall::open(&p2f, Plugin::default()).unwrap());
     }
